@@ -32,8 +32,8 @@ QUICK_EXAMPLES = {"knapsack": 2500, "misp": 900, "max2sat": 1300, "mcp": 1600, "
                   "srflp": 1500, "talentsched": 2000, "psp": 2400, "alp": 2000}
 # in-process part (second Hypothesis search per example, other seed, runs through the example compiled as a server: ~0.1 ms per
 # run instead of ~10 ms): quick-tier max_examples (thorough = 10x), and the widths every one of its instances is solved with
-INPROC_EXAMPLES = {"knapsack": 8000, "misp": 2500, "max2sat": 1500, "mcp": 1500, "lcs": 4000, "sop": 5000, "tsptw": 4500,
-                   "srflp": 2500, "talentsched": 5000, "psp": 3000, "alp": 5000}
+INPROC_EXAMPLES = {"knapsack": 8000, "misp": 2000, "max2sat": 1200, "mcp": 1200, "lcs": 3000, "sop": 3500, "tsptw": 3000,
+                   "srflp": 2000, "talentsched": 3500, "psp": 2500, "alp": 3500}
 INPROC_WIDTHS = (1, 2, 3, 4, 5, 6, 7, 8, None)
 # examples whose oracle stays cheap on somewhat larger instances: the in-process search draws from a wider size range there
 # (knapsack <= 13 items, misp / mcp <= 11 vertices, max2sat <= 9 variables and 22 clauses, lcs strings of <= 10 letters)
